@@ -5,11 +5,13 @@ import Chewing.Proofs.EditorRevalidate
 
 C05 / C18 prove the bound `len ≤ auto_commit_threshold` after the keys that end in `Entering`.  This file
 proves a bound for EVERY state of all four kinds and every public operation, and says exactly which
-histories it covers — because for the others it is FALSE in the code (see `Props/C05Bound.lean`,
-`fuzzy_unbounded_refuted`, `cancel_unbounded_refuted`):
+histories it covers (before the FX3/FX4 repair it was FALSE for the others — unbounded growth under prefix lookup
+and through `cancel_selecting`, see `Props/C05Bound.lean`; since the repair the auto-commit runs in both editing
+states, neither lookup strategy nor layout is restricted any more, and `EditorLinkBound3.lean` proves the slightly
+weaker invariant `Within1` for ALL histories):
 
-* `Within B K e`: thresholds `≤ B`, every easy-symbol expansion `≤ K` characters, exact lookup
-  (`LookupStrategy::Standard`), and `len ≤ B` — `≤ B + 1` while a candidate list is open (the simple engine
+* `Within B K e`: thresholds `≤ B`, every easy-symbol expansion `≤ K` characters,
+  and `len ≤ B` — `≤ B + 1` while a candidate list is open (the simple engine
   opens its one-word list BEFORE the auto-commit runs);
 * `within_apply`: every operation keeps `Within` — all keys in all four states, `select`, `start_selecting`,
   `commit`, `clear`, …; the calls that may close a list WITHOUT an auto-commit (`cancel_selecting`, and the
@@ -413,22 +415,23 @@ theorem gstep_enteringNext {K : Nat} (hK : 1 ≤ K) (sh : Shared D L) (ha : Abbr
 /-! ## `EnteringSyllable` -/
 
 /-- the layout never answers `Fuzzy` to `key_press` (true of the real layouts: only `fuzzy_key_press`, which
-    is used under `LookupStrategy::FuzzyPartialPrefix`, does) -/
+    is used under `LookupStrategy::FuzzyPartialPrefix`, does).  No longer a hypothesis of anything below (FX3 repair) -/
 def NoFuzzy : Prop := ∀ l ev s, (env.keyPress l ev).1 ≠ .fuzzy s
 
-/-- an arm of `EnteringSyllable`: at most one symbol more, and then the key ends in `Entering` (the
-    auto-commit follows) or in the simple engine's one-word list -/
+/-- an arm of `EnteringSyllable`: at most one symbol more, and then the key ends in `Entering` or stays in
+    `EnteringSyllable` with *absorb* (the `Fuzzy` arm; in both cases the auto-commit follows — since the FX3
+    repair it runs in both editing states) or in the simple engine's one-word list -/
 def SStep (sh0 : Shared D L) (r : StepRes D L) : Prop :=
   ∀ sh' t, r = .ok (sh', t) →
     Keep sh0 sh' ∧ sh'.com.len ≤ sh0.com.len + 1 ∧
-    ((∃ s, t = .toState (.selecting s)) ∨ t = .toState .entering ∨
+    ((∃ s, t = .toState (.selecting s)) ∨ t = .toState .entering ∨ t = .spin .absorb ∨
       (sh'.com.len ≤ sh0.com.len ∧ ∀ s, t ≠ .toState s ∨ s = .entering))
 
 macro "sstep_leaf" : tactic =>
   `(tactic| (intro sh' t h; injection h with h; injection h with h1 h2; subst h1 h2;
              first
               | exact ⟨⟨rfl, rfl, rfl, rfl⟩, Nat.le_add_right _ _, .inr (.inl rfl)⟩
-              | exact ⟨⟨rfl, rfl, rfl, rfl⟩, Nat.le_add_right _ _, .inr (.inr ⟨Nat.le_refl _, fun s => .inl (by intro c; cases c)⟩)⟩))
+              | exact ⟨⟨rfl, rfl, rfl, rfl⟩, Nat.le_add_right _ _, .inr (.inr (.inr ⟨Nat.le_refl _, fun s => .inl (by intro c; cases c)⟩))⟩))
 
 theorem sstep_newPhraseSimple (sh0 sh : Shared D L) (hk : Keep sh0 sh) (hl : sh.com.len ≤ sh0.com.len + 1) :
     SStep sh0 (newPhraseSimple sh) := by
@@ -440,12 +443,21 @@ theorem sstep_newPhraseSimple (sh0 sh : Shared D L) (hk : Keep sh0 sh) (hl : sh.
   · intro sh' t h; cases h
   · intro sh' t h; cases h
 
-theorem sstep_syllableAnswer (sh : Shared D L) (beh : LayoutBeh) (hb : ∀ s, beh ≠ .fuzzy s) :
+theorem sstep_syllableAnswer (sh : Shared D L) (beh : LayoutBeh) :
     SStep sh (syllableAnswer env sh beh) := by
   unfold syllableAnswer
   split
   · split <;> sstep_leaf
-  · rename_i s; exact absurd rfl (hb s)
+  · split
+    · unfold withCom
+      split
+      · rename_i c hc
+        have hl := insert_len hc
+        intro sh' t h; injection h with h; injection h with h1 h2; subst h1 h2
+        exact ⟨⟨rfl, rfl, rfl, rfl⟩, (by show c.len ≤ _; omega), .inr (.inr (.inl rfl))⟩
+      · intro sh' t h; cases h
+      · intro sh' t h; cases h
+    · sstep_leaf
   · split
     · unfold withCom
       split
@@ -461,8 +473,8 @@ theorem sstep_syllableAnswer (sh : Shared D L) (beh : LayoutBeh) (hb : ∀ s, be
     · sstep_leaf
   · sstep_leaf
 
-/-- **`EnteringSyllable::next`** under exact lookup -/
-theorem sstep_enteringSyllableNext (hn : NoFuzzy env) (sh : Shared D L) (hs : sh.options.lookupStrategy = .standard)
+/-- **`EnteringSyllable::next`**, either lookup strategy -/
+theorem sstep_enteringSyllableNext (sh : Shared D L)
     (ev : KeyEvent) : SStep sh (enteringSyllableNext env sh ev) := by
   unfold enteringSyllableNext
   split
@@ -474,12 +486,15 @@ theorem sstep_enteringSyllableNext (hn : NoFuzzy env) (sh : Shared D L) (hs : sh
         · intro sh' t h; injection h with h; injection h with h1 h2; subst h1 h2
           exact ⟨⟨rfl, rfl, rfl, rfl⟩, (by show sh.com.clear.len ≤ _; rw [clear_len]; omega), .inr (.inl rfl)⟩
         · sstep_leaf
-      · rw [hs]
-        dsimp only
-        intro sh' t h
-        obtain ⟨h1, h2, h3⟩ := sstep_syllableAnswer env { sh with syl := (env.keyPress sh.syl ev).2 }
-          (env.keyPress sh.syl ev).1 (fun s => hn _ _ s) sh' t h
-        exact ⟨h1, h2, h3⟩
+      · split
+        · intro sh' t h
+          obtain ⟨h1, h2, h3⟩ := sstep_syllableAnswer env { sh with syl := (env.fuzzyKeyPress sh.syl ev).2 }
+            (env.fuzzyKeyPress sh.syl ev).1 sh' t h
+          exact ⟨h1, h2, h3⟩
+        · intro sh' t h
+          obtain ⟨h1, h2, h3⟩ := sstep_syllableAnswer env { sh with syl := (env.keyPress sh.syl ev).2 }
+            (env.keyPress sh.syl ev).1 sh' t h
+          exact ⟨h1, h2, h3⟩
 
 /-! ## `Selecting` -/
 
@@ -696,14 +711,13 @@ theorem highlighting_growth (m : Nat) (sh : Shared D L) (ev : KeyEvent) :
 
 /-! ## the invariant -/
 
-/-- what is configured: thresholds within `B`, easy-symbol expansions within `K`, exact lookup -/
+/-- what is configured: thresholds within `B`, easy-symbol expansions within `K` (either lookup strategy) -/
 structure Cfg (B K : Nat) (sh : Shared D L) : Prop where
   thr : sh.options.autoCommitThreshold ≤ B
-  std : sh.options.lookupStrategy = .standard
   abbr : AbbrLe K sh.abbr
 
 theorem Cfg.keep {B K : Nat} {a b : Shared D L} (h : Cfg B K a) (hk : Keep a b) : Cfg B K b :=
-  ⟨by rw [hk.2.1]; exact h.thr, by rw [hk.2.2.1]; exact h.std, by rw [hk.1]; exact h.abbr⟩
+  ⟨by rw [hk.2.1]; exact h.thr, by rw [hk.1]; exact h.abbr⟩
 
 /-- the bound of a state: `B`, one more while a candidate list is open -/
 def lenCap (B : Nat) : St → Nat
@@ -744,10 +758,10 @@ theorem preamble_keep (sh : Shared D L) : Keep sh (preamble sh) ∧ (preamble sh
 /-- **the state machine's part of a key, all four states**: the configuration is kept, at most `max 1 K`
     symbols are added, and either the auto-commit follows (`Entering`, *absorb*) or the buffer is within the bound of
     the new state -/
-theorem dispatch_growth {B K : Nat} (hn : NoFuzzy env) {e : Editor D L} (hw : Within B K e) {ev : KeyEvent}
+theorem dispatch_growth {B K : Nat} {e : Editor D L} (hw : Within B K e) {ev : KeyEvent}
     {sh : Shared D L} {st : St} (hd : dispatch env e ev = .ok (sh, st)) :
     Keep e.shared sh ∧ sh.com.len ≤ e.shared.com.len + max 1 K ∧
-    ((st = .entering ∧ sh.last = .absorb) ∨ sh.com.len ≤ lenCap B st) := by
+    (((st = .entering ∨ st = .enteringSyllable) ∧ sh.last = .absorb) ∨ sh.com.len ≤ lenCap B st) := by
   have hpk := preamble_keep e.shared
   have hcfg : Cfg B K (preamble e.shared) := hw.cfg.keep hpk.1
   have hlen := hw.len
@@ -765,7 +779,7 @@ theorem dispatch_growth {B K : Nat} (hn : NoFuzzy env) {e : Editor D L} (hw : Wi
     rw [hpk.2] at h2 h3
     refine ⟨hpk.1.trans (h1.trans (e1 ▸ ha.1)), by rw [e1, ha.2]; exact h2, ?_⟩
     rcases h3 with rfl | h3
-    · exact .inl ⟨by rw [e2]; rfl, by rw [e1]; rfl⟩
+    · exact .inl ⟨.inl (by rw [e2]; rfl), by rw [e1]; rfl⟩
     · refine .inr ?_
       rw [e1, ha.2]
       exact Nat.le_trans h3 (Nat.le_trans hlen (le_lenCap B st))
@@ -773,20 +787,21 @@ theorem dispatch_growth {B K : Nat} (hn : NoFuzzy env) {e : Editor D L} (hw : Wi
     rw [hs] at hlen
     obtain ⟨⟨sh', t⟩, hr, hx⟩ := map_ok hd
     dsimp only at hx
-    obtain ⟨h1, h2, h3⟩ := sstep_enteringSyllableNext env hn (preamble e.shared) hcfg.std ev sh' t hr
+    obtain ⟨h1, h2, h3⟩ := sstep_enteringSyllableNext env (preamble e.shared) ev sh' t hr
     have ha := applyTrans_keep sh' .enteringSyllable t
     have e1 : sh = (applyTrans sh' .enteringSyllable t).1 := by rw [hx]
     have e2 : st = (applyTrans sh' .enteringSyllable t).2 := by rw [hx]
     rw [hpk.2] at h2 h3
     refine ⟨hpk.1.trans (h1.trans (e1 ▸ ha.1)), ?_, ?_⟩
     · rw [e1, ha.2]; exact Nat.le_trans h2 (Nat.add_le_add_left (Nat.le_max_left _ _) _)
-    · rcases h3 with ⟨s, rfl⟩ | rfl | ⟨h3, h4⟩
+    · rcases h3 with ⟨s, rfl⟩ | rfl | rfl | ⟨h3, h4⟩
       · refine .inr ?_
         rw [e1, ha.2, e2]
         show sh'.com.len ≤ B + 1
         simp only [lenCap] at hlen
         omega
-      · exact .inl ⟨by rw [e2]; rfl, by rw [e1]; rfl⟩
+      · exact .inl ⟨.inl (by rw [e2]; rfl), by rw [e1]; rfl⟩
+      · exact .inl ⟨.inr (by rw [e2]; rfl), by rw [e1]; rfl⟩
       · cases t with
         | spin b =>
           refine .inr ?_
@@ -797,7 +812,7 @@ theorem dispatch_growth {B K : Nat} (hn : NoFuzzy env) {e : Editor D L} (hw : Wi
         | toState s =>
           rcases h4 s with h5 | rfl
           · exact absurd rfl h5
-          · exact .inl ⟨by rw [e2]; rfl, by rw [e1]; rfl⟩
+          · exact .inl ⟨.inl (by rw [e2]; rfl), by rw [e1]; rfl⟩
   · next s hs =>
     rw [hs] at hlen
     obtain ⟨x, hr, hx⟩ := map_ok hd
@@ -809,7 +824,7 @@ theorem dispatch_growth {B K : Nat} (hn : NoFuzzy env) {e : Editor D L} (hw : Wi
     refine ⟨hpk.1.trans (h1.trans (e1 ▸ ha.1)), ?_, ?_⟩
     · rw [e1, ha.2]; exact Nat.le_trans h2 (Nat.add_le_add_left (Nat.le_max_left _ _) _)
     · rcases h3 with h3 | ⟨h3, h4⟩
-      · exact .inl ⟨by rw [e2, h3]; rfl, by rw [e1, h3]; rfl⟩
+      · exact .inl ⟨.inl (by rw [e2, h3]; rfl), by rw [e1, h3]; rfl⟩
       · refine .inr ?_
         rw [e1, ha.2, e2]
         simp only [lenCap] at hlen
@@ -835,15 +850,15 @@ theorem dispatch_growth {B K : Nat} (hn : NoFuzzy env) {e : Editor D L} (hw : Wi
     refine ⟨hpk.1.trans (h1.trans (e1 ▸ ha.1)), ?_, ?_⟩
     · rw [e1, ha.2, h2]; exact Nat.le_add_right _ _
     · rcases h3 with rfl | ⟨b, rfl⟩
-      · exact .inl ⟨by rw [e2]; rfl, by rw [e1]; rfl⟩
+      · exact .inl ⟨.inl (by rw [e2]; rfl), by rw [e1]; rfl⟩
       · refine .inr ?_
         rw [e1, ha.2, e2, h2]
         exact hlen
 
 /-- the auto-commit / flush tail of a key or a `select` call -/
 theorem tail_within {B K : Nat} {sh0 sh sh2 : Shared D L} {st : St} (hc : Cfg B K sh0) (hk : Keep sh0 sh)
-    (hcase : (st = .entering ∧ sh.last = .absorb) ∨ sh.com.len ≤ lenCap B st) (hac : ACBound env sh)
-    (h : (if st == .entering && sh.last == .absorb then Shared.tryAutoCommit env sh else .ok sh) = .ok sh2) :
+    (hcase : ((st = .entering ∨ st = .enteringSyllable) ∧ sh.last = .absorb) ∨ sh.com.len ≤ lenCap B st) (hac : ACBound env sh)
+    (h : (if (st == .entering || st == .enteringSyllable) && sh.last == .absorb then Shared.tryAutoCommit env sh else .ok sh) = .ok sh2) :
     Cfg B K sh2 ∧ sh2.com.len ≤ lenCap B st := by
   have hc1 : Cfg B K sh := hc.keep hk
   split at h
@@ -856,15 +871,15 @@ theorem tail_within {B K : Nat} {sh0 sh sh2 : Shared D L} {st : St} (hc : Cfg B 
     cases h
     refine ⟨hc1, ?_⟩
     rcases hcase with ⟨h1, h2⟩ | h1
-    · exact absurd (by rw [h1, h2]; rfl) hcond
+    · exact absurd (by rw [h2]; rcases h1 with h1 | h1 <;> rw [h1] <;> rfl) hcond
     · exact h1
 
 /-- **keys, in every state** -/
-theorem within_key {B K : Nat} (hn : NoFuzzy env) {e e' : Editor D L} (hw : Within B K e) {ev : KeyEvent} {b : KB}
+theorem within_key {B K : Nat} {e e' : Editor D L} (hw : Within B K e) {ev : KeyEvent} {b : KB}
     (hac : ∀ sh, Mid env e (.key ev) sh → ACBound env sh) (h : e.processKey env ev = .ok (e', b)) :
     Within B K e' := by
   obtain ⟨sh, st, hd, h2⟩ := processKey_split env h
-  obtain ⟨hk, _, hcase⟩ := dispatch_growth env hn hw hd
+  obtain ⟨hk, _, hcase⟩ := dispatch_growth env hw hd
   obtain ⟨hst, _, sh2, h3, h4⟩ := tail_spec env h2
   obtain ⟨c1, c2⟩ := tail_within env hw.cfg hk hcase (hac sh ⟨st, hd⟩) h3
   have e1 : Keep sh2 e'.shared ∧ e'.shared.com = sh2.com := by
@@ -882,7 +897,7 @@ def Quiet (B : Nat) (e : Editor D L) : Prop := ∀ s, e.state = .selecting s →
     candidate list without an auto-commit (`cancel_selecting`; the `revalidate_selecting` of the option / layout /
     learn / unlearn calls) are not made over the over-full one-word list -/
 def SafeOp (B : Nat) (e : Editor D L) : Op L → Prop
-  | .setOptions o => o.autoCommitThreshold ≤ B ∧ o.lookupStrategy = .standard ∧ Quiet B e
+  | .setOptions o => o.autoCommitThreshold ≤ B ∧ Quiet B e
   | .cancelSelecting => Quiet B e
   | .setLayout _ => Quiet B e
   | .learn _ _ => Quiet B e
@@ -942,10 +957,11 @@ theorem within_select {B K : Nat} {e e' : Editor D L} (hw : Within B K e) {n : N
       have hlen := hw.len
       rw [hs] at hlen
       simp only [lenCap] at hlen
-      have hcase : ((applyTrans sh0 (.selecting s') t).2 = .entering ∧ (applyTrans sh0 (.selecting s') t).1.last = .absorb) ∨
+      have hcase : (((applyTrans sh0 (.selecting s') t).2 = .entering ∨ (applyTrans sh0 (.selecting s') t).2 = .enteringSyllable) ∧
+            (applyTrans sh0 (.selecting s') t).1.last = .absorb) ∨
           (applyTrans sh0 (.selecting s') t).1.com.len ≤ lenCap B (applyTrans sh0 (.selecting s') t).2 := by
         rcases h3 with rfl | ⟨h3, h4⟩
-        · exact .inl ⟨rfl, rfl⟩
+        · exact .inl ⟨.inl rfl, rfl⟩
         · refine .inr ?_
           rw [ha.2]
           cases t with
@@ -1028,7 +1044,7 @@ theorem within_jump {B K : Nat} {e e' : Editor D L} (hw : Within B K e) {which :
 
 /-- **every public operation keeps the invariant** — under the side conditions `SafeOp`, with the auto-commit's
     own bound at the state(s) it runs in -/
-theorem within_apply {B K : Nat} (hn : NoFuzzy env) {e e' : Editor D L} (hw : Within B K e) (op : Op L)
+theorem within_apply {B K : Nat} {e e' : Editor D L} (hw : Within B K e) (op : Op L)
     (hs : SafeOp B e op) (hac : ∀ sh, Mid env e op sh → ACBound env sh) (h : e.apply env op = .ok e') :
     Within B K e' := by
   cases op with
@@ -1036,7 +1052,7 @@ theorem within_apply {B K : Nat} (hn : NoFuzzy env) {e e' : Editor D L} (hw : Wi
     simp only [Editor.apply] at h
     obtain ⟨⟨e1, b⟩, h1, h2⟩ := map_ok h
     subst h2
-    exact within_key env hn hw hac h1
+    exact within_key env hw hac h1
   | select n =>
     simp only [Editor.apply] at h
     obtain ⟨⟨e1, b⟩, h1, h2⟩ := map_ok h
@@ -1091,14 +1107,14 @@ theorem within_apply {B K : Nat} (hn : NoFuzzy env) {e e' : Editor D L} (hw : Wi
     exact leaveIfEmpty_within env ⟨hw.cfg.keep ⟨rfl, rfl, rfl, rfl⟩, hw.len⟩
   | setOptions o =>
     simp only [Editor.apply] at h
-    obtain ⟨h1, h2, h3⟩ := hs
+    obtain ⟨h1, h3⟩ := hs
     have hw1 : Within B K (e.setOptions env o) := by
       unfold Editor.setOptions
       dsimp only
       apply leaveIfEmpty_within
       split
-      · exact ⟨⟨h1, h2, hw.cfg.abbr⟩, hw.len⟩
-      · exact ⟨⟨h1, h2, hw.cfg.abbr⟩, hw.len⟩
+      · exact ⟨⟨h1, hw.cfg.abbr⟩, hw.len⟩
+      · exact ⟨⟨h1, hw.cfg.abbr⟩, hw.len⟩
     have hq1 : Quiet B (e.setOptions env o) := by
       intro s hst
       have e1 : (e.setOptions env o).shared.com = e.shared.com := by
@@ -1158,13 +1174,13 @@ theorem within_apply {B K : Nat} (hn : NoFuzzy env) {e e' : Editor D L} (hw : Wi
 
 /-- **the states inside a step**: where the auto-commit converts, the buffer holds at most `B + max 2 K` symbols
     (and the configuration is the pre-state's) -/
-theorem mid_len {B K : Nat} (hn : NoFuzzy env) {e : Editor D L} (hw : Within B K e) {op : Op L} {sh : Shared D L}
+theorem mid_len {B K : Nat} {e : Editor D L} (hw : Within B K e) {op : Op L} {sh : Shared D L}
     (hm : Mid env e op sh) : Cfg B K sh ∧ sh.com.len ≤ B + max 2 K := by
   have hlen := Nat.le_trans hw.len (lenCap_le B e.state)
   cases op with
   | key ev =>
     obtain ⟨st, hd⟩ := hm
-    obtain ⟨hk, hl, hcase⟩ := dispatch_growth env hn hw hd
+    obtain ⟨hk, hl, hcase⟩ := dispatch_growth env hw hd
     refine ⟨hw.cfg.keep hk, ?_⟩
     rcases hcase with ⟨hst, _⟩ | hcase
     · -- ends in `Entering`: only `Entering` itself adds more than one symbol, and there `len ≤ B`
@@ -1177,7 +1193,7 @@ theorem mid_len {B K : Nat} (hn : NoFuzzy env) {e : Editor D L} (hw : Within B K
           · next h => exact absurd h hs
           · obtain ⟨⟨sh', t⟩, hr, hx⟩ := map_ok hd
             dsimp only at hx
-            obtain ⟨_, h2, _⟩ := sstep_enteringSyllableNext env hn (preamble e.shared) (hw.cfg.keep (preamble_keep _).1).std ev sh' t hr
+            obtain ⟨_, h2, _⟩ := sstep_enteringSyllableNext env (preamble e.shared) ev sh' t hr
             have ha := applyTrans_keep sh' .enteringSyllable t
             have e1 : sh = (applyTrans sh' .enteringSyllable t).1 := by rw [hx]
             rw [e1, ha.2]; exact h2
@@ -1231,7 +1247,7 @@ def ACAlong : Editor D L → List (Op L) → Prop
   | e, op :: ops => (∀ sh, Mid env e op sh → ACBound env sh) ∧ ∀ e', e.apply env op = .ok e' → ACAlong e' ops
 
 /-- **`Within` along every history** -/
-theorem within_run {B K : Nat} (hn : NoFuzzy env) (ops : List (Op L)) :
+theorem within_run {B K : Nat} (ops : List (Op L)) :
     ∀ e e' : Editor D L, Within B K e → SafeAlong env B e ops → ACAlong env e ops → e.run env ops = .ok e' →
       Within B K e' := by
   induction ops with
@@ -1241,7 +1257,7 @@ theorem within_run {B K : Nat} (hn : NoFuzzy env) (ops : List (Op L)) :
     simp only [Editor.run] at h
     split at h
     · next e1 h1 =>
-      exact ih e1 e' (within_apply env hn hw op hs.1 ha.1 h1) (hs.2 e1 h1) (ha.2 e1 h1) h
+      exact ih e1 e' (within_apply env hw op hs.1 ha.1 h1) (hs.2 e1 h1) (ha.2 e1 h1) h
     · cases h
     · cases h
 
